@@ -6,10 +6,12 @@ import (
 	"math"
 	"strconv"
 	"strings"
+	"unicode/utf8"
 )
 
 // Typed literals used in scenarios and traces:
-//   NULL | i:<decimal> | r:<16 hex digits of the IEEE bits> | t:<text> | x:<hex>
+//   NULL | i:<decimal> | r:<16 hex digits of the IEEE bits> | t:<text> | x:<hex> | u:<hex>
+// (u: = TEXT whose bytes are not valid UTF-8, which t: cannot carry through JSON)
 
 func parseLit(s string) (interface{}, error) {
 	switch {
@@ -26,6 +28,12 @@ func parseLit(s string) (interface{}, error) {
 		return math.Float64frombits(u), nil
 	case strings.HasPrefix(s, "t:"):
 		return s[2:], nil
+	case strings.HasPrefix(s, "u:"):
+		b, err := hex.DecodeString(s[2:])
+		if err != nil {
+			return nil, err
+		}
+		return string(b), nil
 	case strings.HasPrefix(s, "x:"):
 		b, err := hex.DecodeString(s[2:])
 		if err != nil {
@@ -58,6 +66,9 @@ func fmtLit(v interface{}) string {
 	case float64:
 		return fmt.Sprintf("r:%016x", math.Float64bits(x))
 	case string:
+		if !utf8.ValidString(x) {
+			return "u:" + hex.EncodeToString([]byte(x))
+		}
 		return "t:" + x
 	case []byte:
 		return "x:" + hex.EncodeToString(x)
@@ -87,6 +98,9 @@ func sqlLit(s string) string {
 		}
 		return strconv.FormatFloat(x, 'e', -1, 64)
 	case string:
+		if !utf8.ValidString(x) {
+			return "cast(x'" + hex.EncodeToString([]byte(x)) + "' as text)"
+		}
 		return "'" + strings.ReplaceAll(x, "'", "''") + "'"
 	case []byte:
 		return "x'" + hex.EncodeToString(x) + "'"
